@@ -91,6 +91,25 @@ func runC11(c *Ctx) {
 					if funcIs(calleeOf(info, r), pMigrate, "Executor", "Pending") && i == 0 {
 						okDef = true
 					}
+					// an immediately invoked literal whose every return is Executor.Pending(…)
+					if fl, isLit := ast.Unparen(r.Fun).(*ast.FuncLit); isLit && i == 0 {
+						rets, good := 0, 0
+						ast.Inspect(fl.Body, func(k ast.Node) bool {
+							if inner, ok := k.(*ast.FuncLit); ok && inner != fl {
+								return false
+							}
+							if rs, ok := k.(*ast.ReturnStmt); ok {
+								rets++
+								if len(rs.Results) == 1 {
+									if cl, ok := ast.Unparen(rs.Results[0]).(*ast.CallExpr); ok && funcIs(calleeOf(info, cl), pMigrate, "Executor", "Pending") {
+										good++
+									}
+								}
+							}
+							return true
+						})
+						okDef = rets > 0 && rets == good
+					}
 				case *ast.SliceExpr:
 					if x, ok := r.X.(*ast.Ident); ok && info.ObjectOf(x) == consumed && r.Low == nil {
 						okDef = true
@@ -699,13 +718,28 @@ func checkPartialAnywhere(c *Ctx, rule string) {
 				}
 				if ix, ok := ast.Unparen(se.X).(*ast.IndexExpr); ok {
 					if id, ok := ast.Unparen(ix.Index).(*ast.Ident); ok && info.ObjectOf(id) == iobj && types.ExprString(ix.X) == types.ExprString(call.Args[0]) {
-						reads[se.Sel.Name] = true
+						if v, isVar := info.ObjectOf(se.Sel).(*types.Var); isVar && v.IsField() {
+							reads[se.Sel.Name] = true
+						}
 					}
 				}
 				return true
 			})
 		}
-		c.Check(rule, "migrate.(Executor).Pending|"+types.ExprString(call.Args[0])+" look-up of "+types.ExprString(call.Args[1])+" requires a complete revision", ifs.Pos(), okIdx && reads["Applied"] && reads["Total"], "Executor.Pending treats a file as done as soon as a revision with its version exists, without looking at Applied/Total of that revision: a file that was run out of order (non-linear) and failed half way is never resumed and `migrate status` reports no pending files")
+		// the matched revision may also be handed to a helper (complete(revs[i]))
+		consulted := false
+		if okIdx {
+			iobj := info.ObjectOf(idx)
+			ast.Inspect(ifs.Cond, func(k ast.Node) bool {
+				if ix, ok := k.(*ast.IndexExpr); ok {
+					if id, ok := ast.Unparen(ix.Index).(*ast.Ident); ok && info.ObjectOf(id) == iobj && types.ExprString(ix.X) == types.ExprString(call.Args[0]) {
+						consulted = true
+					}
+				}
+				return true
+			})
+		}
+		c.Check(rule, "migrate.(Executor).Pending|"+types.ExprString(call.Args[0])+" look-up of "+types.ExprString(call.Args[1])+" requires a complete revision", ifs.Pos(), okIdx && (reads["Applied"] && reads["Total"] || consulted && len(reads) == 0), "Executor.Pending treats a file as done as soon as a revision with its version exists, without looking at Applied/Total of that revision: a file that was run out of order (non-linear) and failed half way is never resumed and `migrate status` reports no pending files")
 		return true
 	})
 	if n == 0 {
